@@ -4,6 +4,7 @@ import random
 
 def _workload(rnd):
     tensors = ["A", "B", "C", "D", "E", "F"]
+    persistent = {t for t in tensors if rnd.random() < 0.2}  # per tensor: must agree across Einsums
     n = rnd.randint(1, 4)
     eins = []
     prev_out = None
@@ -12,7 +13,7 @@ def _workload(rnd):
         if prev_out and prev_out not in ins and rnd.random() < 0.6:
             ins[0] = prev_out
         out = rnd.choice([t for t in tensors if t not in ins])
-        pers = [t for t in ins if rnd.random() < 0.2]
+        pers = [t for t in list(ins) + [out] if t in persistent]
         eins.append((f"E{i}", ins, out, pers))
         prev_out = out
     return eins
@@ -26,7 +27,8 @@ def _yaml(eins):
         for t in ins:
             p = ", persistent: true" if t in pers else ""
             lines.append(f"    - {{name: {t}, projection: [m, k]{p}}}")
-        lines.append(f"    - {{name: {out}, projection: [m, k], output: true}}")
+        po = ", persistent: true" if out in pers else ""
+        lines.append(f"    - {{name: {out}, projection: [m, k], output: true{po}}}")
     lines += ["arch:", "  nodes:",
               "  - !Memory {name: Main, size: inf, area: 1, leak_power: 0, actions: [{name: read, energy: 1, throughput: 1}, {name: write, energy: 1, throughput: 1}]}",
               "  - !Compute {name: MAC, area: 1, leak_power: 0, actions: [{name: compute, energy: 1, throughput: 1}]}"]
@@ -44,6 +46,10 @@ def _named_sets(eins, idx):
            "Persistent": set(pers)}
     for t in U:
         env[t] = {t}
+    # tensors of OTHER Einsums of the workload are known names too: empty sets in this Einsum's universe
+    for e in eins:
+        for t in list(e[1]) + [e[2]]:
+            env.setdefault(t, set())
     return U, env
 
 
@@ -104,8 +110,8 @@ def _check_exprs(rnd, n_exprs):
             if got != want:
                 return ev, {"einsums": eins, "einsum": ein.name, "expression": expr, "observed": sorted(got), "required": sorted(want)}
         # dictionaries keyed by set expressions, with an Other key
-        for _ in range(max(1, n_exprs // 4)):
-            keys = [_rand_expr(rnd, names, rnd.randint(0, 2)) for _ in range(rnd.randint(0, 3))]
+        for _ in range(max(2, n_exprs)):
+            keys = [_rand_expr(rnd, names, rnd.randint(0, 2)) for _ in range(rnd.randint(0, 4))]
             d = {k: i for i, k in enumerate(dict.fromkeys(keys))}
             if rnd.random() < 0.8:
                 d["Other"] = -1
